@@ -211,6 +211,16 @@ def oracle(case):
     kind, err = call(m.fit, data.copy(), allow=(Exception,), what='fit')
     if kind == 'exc':
         return {'nontrivial': False, 'classes': ['fit-raised:%s:%s' % (spec['cls'], type(err).__name__)]}
+    if case['seed'] % 2:
+        # a second live model of the same configuration on the mirrored sample (same spread, same kernel bandwidth, other
+        # location), fitted and queried before the model under test is used: nothing of it may show in `m`
+        try:
+            byst = build_model(spec, -data)
+            byst.fit(-data)
+            byst.cdf(-data[:3])
+            byst.percent_point(np.array([0.3, 0.6]))
+        except Exception:
+            pass
     name = inner_name(m)
     what = '%s%s fitted on %s(n=%d)' % (spec['cls'], '' if name == spec['cls'] else '->' + name, case['data']['shape'], len(data))
     kde = name == 'GaussianKDE'
